@@ -8,7 +8,7 @@
    recomputed on an unchanged tree is PROVED for flat trees with any number of generations (C09_unchanged_flat_tree_exit_0,
    C09_flat_invariant below); for nested histories it is the lockstep correspondence's job (create and verify -dh call
    the same `dirhash`). *)
-From MHL Require Import Model.Commands Gen.Generated Proofs.BaseFacts Proofs.CodecFacts Proofs.DirHashFacts Proofs.VerifyFacts Proofs.SensFacts Proofs.TreeFacts Proofs.HistFacts Proofs.FlatFacts Proofs.FlatDhFacts.
+From MHL Require Import Model.Commands Gen.Generated Proofs.BaseFacts Proofs.CodecFacts Proofs.DirHashFacts Proofs.VerifyFacts Proofs.SensFacts Proofs.TreeFacts Proofs.HistFacts Proofs.FlatFacts Proofs.FlatDhFacts Proofs.StructFacts.
 
 Theorem C09_never_aborts : forall Hb matches C cdig t f co ro ip ifl,
   exists c, o_outcome (snd (verify_dh Hb matches C cdig t f co ro ip ifl)) = Exit c.
@@ -49,6 +49,16 @@ Theorem C09_content_change_fails_entry : forall Hb matches C, (forall f b, Foral
   e_digest e = c -> dh_entry_ok e cs' = false \/ collision Hb f.
 Proof. intros Hb matches C Hw. exact (changed_entry_fails Hb matches C Hw). Qed.
 Print Assumptions C09_content_change_fails_entry.
+
+(* the same for a RENAME below the folder: an entry whose structure hash was recorded before some file or folder below
+   it was renamed fails the comparison afterwards, or an explicit collision of the primitive is exhibited *)
+Theorem C09_rename_fails_entry : forall Hb matches C, (forall f b, Forall is_byte (Hb f b) /\ length (Hb f b) = width f) ->
+  forall spec f p (d d' : node C) e c s cs',
+  renamed1 (prune matches C spec p d) (prune matches C spec p d') ->
+  dirhash Hb matches C spec f p d = Some (c, s) -> dirhash Hb matches C spec f p d' = Some cs' ->
+  e_struct e = Some s -> dh_entry_ok e cs' = false \/ collision Hb f.
+Proof. exact renamed_entry_fails. Qed.
+Print Assumptions C09_rename_fails_entry.
 
 (* END TO END, "an unchanged tree gives exit 0", flat trees (one history at the root), any number of generations: seal a
    tree that has no history with any formats, -n or not, any patterns; run create any number of times with any formats
